@@ -220,7 +220,11 @@ def Ser.setTransmissionData (s : Ser) (c? : Option Chunk) : Ser × Bool :=
   | none => (s, false)
   | some c =>
     if !c.isFirst && !s.incOpen then (s, false) else
-    ({ s with fs := s.fs.run (receiveOps s.incOpen c), incOpen := !c.isLast }, c.isLast)
+    -- D66 repair (`__stopDumpChild`): before the rename of a complete incoming snapshot a running fork child of
+    -- our own, older dump is killed and reaped, so that it cannot rename its dump over the installed one
+    let stop := c.isLast && s.mode == .file && s.fork && s.pid == .child
+    ({ s with fs := s.fs.run (receiveOps s.incOpen c), incOpen := !c.isLast,
+              pid := if stop then .idle else s.pid, child := if stop then none else s.child }, c.isLast)
 
 /-- what `deserialize()` reads (`none` = no data / no file: the call raises) -/
 def Ser.stored (s : Ser) : Option Bytes := s.fs.dump
